@@ -123,7 +123,8 @@ def c11(run):
 def c12(run):
     run.rule = ("cases = merge_partitions on ordered pairs of the TLC-generated partitions of 0..6 (quick: every 40th "
                 "pair; thorough: all 372100) under block embeddings, merge_partition_list on all permutations of "
-                "triples from a reduced set, [] and the neutral element, plus seeded random real partitions; "
+                "triples from a reduced set, [] and the neutral element, lists of every length 0..20, 31..33, 64, 65 in which "
+                "each partition has a boundary of its own, long-vs-short merges, plus seeded random real partitions; "
                 "obligations (a)-(e) of DESIGN 5 C12 and the literal reading (f) with structural identification of "
                 "the representation finding; non-trivial = distinct record whose operands are both non-empty")
     run.assumptions = list(PART_ASSUME)
@@ -286,7 +287,8 @@ def c04(run):
 
 @check("C14")
 def c14(run):
-    run.rule = ("cases = the C04 automaton families; remove_unreachable_states: product fixpoint = same language and a "
+    run.rule = ("cases = the C04 automaton families and every second automaton accepted by build() in the C13 random "
+                "call-sequence families; remove_unreachable_states: product fixpoint = same language and a "
                 "bijection between the reachable states of the input and ALL states of the result; on input and "
                 "result: combined_char_partition groups only characters with equal successors in every state, "
                 "pick_alphabet has one character per class in class order, every cell of compile_successors equals "
@@ -303,6 +305,11 @@ def c14(run):
     run.validate("dfa_random_prune", os.path.join(out2, "dfa_random_prune.ndjson"), "Trace_Automata",
                  "Trace_Automata.cfg", ["C14:", "remove_unreachable", "compile/"], workers=workers(run), nontrivial=nt,
                  need={"compiled": lambda r: r.get("style") == 9}, timeout=3000)
+    # automata that come out of AutomatonBuilder::build for the C13 call-sequence families (holes, overlaps, superfluous
+    # defaults, tilings, landmark labels): whatever build() accepts, pruning and the tables must be right about it
+    out3, info3 = _drive(run, "builder", sub="random", extra=["--for", "C14"])
+    run.validate("builder_prune", os.path.join(out3, "builder_prune.ndjson"), "Trace_Automata", "Trace_Automata.cfg",
+                 ["C14:", "remove_unreachable"], workers=workers(run), nontrivial=nt, timeout=3000)
     _components(run, {"table", "bfsqueue"}, ["compact_table", "bfsqueue"])
     run.exhaustive = True
     run.extra["exhaustive_scope"] = "all complete DFAs with <= 3 states over 2 letters (TLC-enumerated)"
@@ -398,7 +405,8 @@ def c17(run):
 @check("C08")
 def c08(run):
     run.rule = ("cases = parse_smt_literal on every text of length <= 4 (5 thorough) over {\\,u,{,},0,3,f,g}, on the "
-                "escape-attempt family (\\u, optional {, 0..5(6) digits from {0,2,3,F}, optional }, small contexts) and "
+                "escape-attempt family (\\u, optional {, 0..5(6) digits from {0,2,3,F}, optional }, small contexts), braces "
+                "at every position of an attempt, two consecutive attempts, long texts and "
                 "on seeded random texts with non-ASCII characters -- EVERY PREFIX of each text is parsed, binding each "
                 "transition of the LiteralParser state machine; Display of every string <= 2 (3) over 13 content symbols, "
                 "of content spelling escape sequences, of random strings, and Display/smt_char_as_string/char_to_smt of "
